@@ -178,6 +178,8 @@ class CFG:
             if not text:
                 n.text = head(a)
             self.by_ast.setdefault(id(a), []).append(n.id)
+            if stmt is not None and stmt is not a and kind in ("test", "iter", "match"):
+                self.by_ast.setdefault(id(stmt), []).append(n.id)
         self.nodes.append(n)
         self.out[n.id] = []
         self.inc[n.id] = []
